@@ -9,13 +9,15 @@
         src --a--> P1 (one chunk in, one chunk out) --b-->\
               \--> P2 (holds back Lag chunks)       --c--> J (needs b[k] and c[k]) --t--> consumer
 
-   Every stage is a thread that alternates "take the next input(s)" and "send the result" (blocking when the mailbox is full); P2
-   emits output k only after it has taken input k + Lag, and flushes what it holds when its input ends.  A reader still occupies
-   the slot of the message it is working on: acked counts the messages a subscriber has *finished*.
+   Every stage is a thread that alternates "take the next input" and "send the result" (blocking when the mailbox is full); P2
+   emits output k only after it has taken input k + Lag, and flushes what it holds when its input ends.  As in Mailbox._read, a
+   subscriber that finds messages waiting grabs *all* of them at once into a list of its own and the mailbox forgets them
+   (took), then works through the list one by one (used) - so every edge buffers up to Cap messages in the mailbox plus up to
+   Cap in the reader, and how many are grabbed at a time depends on the schedule.
 
-   TLC decides for each (Cap, Lag, N) whether every schedule terminates or every schedule ends in a deadlock (a bounded Kahn
-   network: the outcome does not depend on the schedule - checked, not assumed: Terminates or AlwaysStuck must hold).  The
-   harness runs the same network on the real threaded processor under the deterministic scheduler and compares outcomes.   *)
+   TLC decides for each (Cap, Lag, N) whether every schedule terminates (T), every schedule ends in a deadlock (D) or both
+   happen (M: the batching makes the outcome schedule-dependent near the threshold).  The harness runs the same network on the
+   real threaded processor under the deterministic scheduler and compares outcomes.                                        *)
 EXTENDS Naturals, FiniteSets, TLC
 
 CONSTANTS Cap,    \* max_messages of every mailbox
@@ -27,8 +29,8 @@ Subs == [a |-> {"P1", "P2"}, b |-> {"J"}, c |-> {"J"}, t |-> {"C"}]
 
 VARIABLES sent,     \* sent[m]: messages sent to mailbox m
           closed,   \* closed[m]
-          took,     \* took[<<m, s>>]: messages subscriber s has taken from m
-          acked,    \* acked[<<m, s>>]: messages subscriber s has finished (it came back for the next one, or stopped)
+          took,     \* took[<<m, s>>]: messages subscriber s has grabbed from m (the mailbox has forgotten them)
+          acked,    \* acked[<<m, s>>]: messages of m subscriber s has used (handed to its stage one by one)
           pc,       \* pc[x] for x in {"S", "P1", "P2", "J", "C"}: "take" | "send" | "take2" | "done"
           out       \* out[x]: results x has sent so far
 vars == <<sent, closed, took, acked, pc, out>>
@@ -40,18 +42,14 @@ Init == /\ sent = [m \in Boxes |-> 0] /\ closed = [m \in Boxes |-> FALSE]
         /\ pc = [x \in Stages |-> IF x = "S" THEN "send" ELSE "take"] /\ out = [x \in Stages |-> 0]
 
 Min(S) == CHOOSE x \in S : \A y \in S : x <= y
-Held(m) == sent[m] - Min({acked[<<m, s>>] : s \in Subs[m]})          \* len(mailbox)
+Held(m) == sent[m] - Min({took[<<m, s>>] : s \in Subs[m]})           \* len(mailbox)
 CanWrite(m) == Held(m) < Cap
-\* subscriber s takes the next message of m (finishing the previous one), or learns that m is over
-CanTake(m, s) == sent[m] > took[<<m, s>>]
-Over(m, s) == closed[m] /\ sent[m] = took[<<m, s>>]
-\* a subscriber that comes back for the next message first notes the receipt of the previous one (Mailbox._read: the top of its
-\* loop, before it waits) - its own step, so that a full mailbox can drain while its readers wait for more
-Fresh(m, s) == acked[<<m, s>>] = took[<<m, s>>]
-Take(m, s) == Fresh(m, s) /\ took' = [took EXCEPT ![<<m, s>>] = @ + 1] /\ UNCHANGED acked
-Finish(m, s) == Fresh(m, s) /\ UNCHANGED <<took, acked>>
-Back(m, s, x, at) == /\ pc[x] = at /\ ~Fresh(m, s) /\ acked' = [acked EXCEPT ![<<m, s>>] = took[<<m, s>>]]
-                     /\ UNCHANGED <<sent, closed, took, pc, out>>
+\* subscriber s gets its next message of m: from its own list if that is not used up, else it grabs everything that waits in m
+CanTake(m, s) == acked[<<m, s>>] < took[<<m, s>>] \/ sent[m] > took[<<m, s>>]
+Over(m, s) == closed[m] /\ sent[m] = took[<<m, s>>] /\ acked[<<m, s>>] = took[<<m, s>>]
+Take(m, s) == /\ took' = [took EXCEPT ![<<m, s>>] = IF acked[<<m, s>>] < @ THEN @ ELSE sent[m]]
+              /\ acked' = [acked EXCEPT ![<<m, s>>] = @ + 1]
+Finish(m, s) == UNCHANGED <<took, acked>>
 Send(m, x) == CanWrite(m) /\ sent' = [sent EXCEPT ![m] = @ + 1] /\ out' = [out EXCEPT ![x] = @ + 1]
 
 \* the source
@@ -65,7 +63,7 @@ P1End == /\ pc["P1"] = "take" /\ Over("a", "P1") /\ Finish("a", "P1") /\ closed'
          /\ pc' = [pc EXCEPT !["P1"] = "done"] /\ UNCHANGED <<sent, out>>
 \* P2: output k after input k + Lag; flush at the end
 P2Take == /\ pc["P2"] = "take" /\ CanTake("a", "P2") /\ Take("a", "P2")
-          /\ pc' = [pc EXCEPT !["P2"] = IF took[<<"a", "P2">>] + 1 > Lag THEN "send" ELSE "take"] /\ UNCHANGED <<sent, closed, out>>
+          /\ pc' = [pc EXCEPT !["P2"] = IF acked[<<"a", "P2">>] + 1 > Lag THEN "send" ELSE "take"] /\ UNCHANGED <<sent, closed, out>>
 P2Send == /\ pc["P2"] = "send" /\ Send("c", "P2") /\ pc' = [pc EXCEPT !["P2"] = "take"] /\ UNCHANGED <<closed, took, acked>>
 P2EndIn == /\ pc["P2"] = "take" /\ Over("a", "P2") /\ Finish("a", "P2") /\ pc' = [pc EXCEPT !["P2"] = "flush"] /\ UNCHANGED <<sent, closed, out>>
 P2Flush == /\ pc["P2"] = "flush" /\ out["P2"] < N /\ Send("c", "P2") /\ UNCHANGED <<closed, took, acked, pc>>
@@ -82,9 +80,7 @@ JEndC == /\ pc["J"] = "end2" /\ Over("c", "J") /\ Finish("c", "J") /\ closed' = 
 CTake == /\ pc["C"] = "take" /\ CanTake("t", "C") /\ Take("t", "C") /\ UNCHANGED <<sent, closed, pc, out>>
 CEnd == /\ pc["C"] = "take" /\ Over("t", "C") /\ Finish("t", "C") /\ pc' = [pc EXCEPT !["C"] = "done"] /\ UNCHANGED <<sent, closed, out>>
 
-Backs == Back("a", "P1", "P1", "take") \/ Back("a", "P2", "P2", "take") \/ Back("b", "J", "J", "take") \/ Back("c", "J", "J", "take2")
-         \/ Back("c", "J", "J", "end2") \/ Back("t", "C", "C", "take")
-Next == Backs \/ SSend \/ SClose \/ P1Take \/ P1Send \/ P1End \/ P2Take \/ P2Send \/ P2EndIn \/ P2Flush \/ P2Close
+Next == SSend \/ SClose \/ P1Take \/ P1Send \/ P1End \/ P2Take \/ P2Send \/ P2EndIn \/ P2Flush \/ P2Close
         \/ JTakeB \/ JTakeC \/ JSend \/ JEndB \/ JEndC \/ CTake \/ CEnd
 Spec == Init /\ [][Next]_vars /\ WF_vars(Next)
 
@@ -92,9 +88,10 @@ AllDone == \A x \in Stages : pc[x] = "done"
 Stuck == ~AllDone /\ ~ENABLED Next
 Terminates == <>AllDone
 AlwaysStuck == <>Stuck
+NeverStuck == ~Stuck
 \* eager mode never buffers more than the capacity; everything sent arrives in order
 CapInv == \A m \in Boxes : Held(m) <= Cap
-Delivered == AllDone => took[<<"t", "C">>] = N
+Delivered == AllDone => acked[<<"t", "C">>] = N
 \* the property's proviso is sufficient
 ProvisoSufficient == Lag < Cap => ~Stuck
 =============================================================================
